@@ -1251,9 +1251,9 @@ func c10Gen(r *Rand, tier string) []interface{} {
 	}
 	// import trees over several directories: same-named files of different content, the same relative
 	// import argument resolved from files of different directories, ./ ../ sub-directory and absolute paths
-	nDirs := 90
+	nDirs := 64
 	if tier == "thorough" {
-		nDirs = 1500
+		nDirs = 1000
 	}
 	for i := 0; i < nDirs; i++ {
 		blocks := mkBlocks(false)
